@@ -194,3 +194,15 @@ def finish(prop, violations, known_hits):
         sys.exit(1)
     print("OK property=%s" % prop, flush=True)
     sys.exit(0)
+
+
+def build_gleece(tags="verif"):
+    """Builds the gleece CLI from REPO's current working tree with hooks enabled."""
+    sc = scratch()
+    out = os.path.join(sc, "gleece-" + tags.replace(",", "_"))
+    if os.path.exists(out):
+        return out
+    t0 = time.time()
+    run(["go", "build", "-tags", tags, "-o", out, "."], cwd=REPO, env=goenv(), timeout=1200)
+    log("gleece CLI built in %.1fs from %s" % (time.time() - t0, REPO))
+    return out
